@@ -86,16 +86,20 @@ func run(c *vf.Ctx) {
 			for _, p := range rps {
 				for _, k := range kls {
 					// Where a whole scrypt is computed (valid N, r, p) the product is thinned for
-					// the expensive N: quick restricts N in 1024..4096 to p in {1,2,3,8} and keyLen
-					// in {-1,0,1,32,65,300}; thorough runs the full product up to N = 4096 and
-					// restricts N > 4096 to r in {1,2,8}, p in {1,2}, keyLen in {0,32,65}.
-					// Everything else (all invalid r/p/N combinations) is the full product.
+					// the expensive N. quick: N in 1024..4096 only with p in {1,2,3,8} and keyLen
+					// in {-1,0,1,32,65,300}. thorough: N in 1024..4096 with p in {1,2,3,8,17} and
+					// every keyLen; N > 4096 with r in {1,2,8}, p in {1,2}, keyLen in {0,32,65}.
+					// Everything else (N < 1024, all invalid r/p/N combinations) is the full product.
 					if n >= 1024 && n&(n-1) == 0 && n <= 1<<20 && r >= 1 && r <= 1<<10 && p >= 1 && p <= 1<<10 {
 						if n <= 4096 && !c.Thorough {
 							if !(p <= 3 || p == 8) || !(k == -1 || k == 0 || k == 1 || k == 32 || k == 65 || k == 300) {
 								reduced++
 								continue
 							}
+						}
+						if n <= 4096 && c.Thorough && !(p <= 3 || p == 8 || p == 17) {
+							reduced++
+							continue
 						}
 						if n > 4096 {
 							if !(r == 1 || r == 2 || r == 8) || p > 2 || !(k == 0 || k == 32 || k == 65) {
@@ -116,7 +120,7 @@ func run(c *vf.Ctx) {
 			tuple{2, 1, 1<<30 - 1, k}, tuple{2, 1, 1 << 30, k}, tuple{2, 1<<30 + 1, 1, k}, tuple{16, 3, 1<<30/3 + 1, k}, tuple{16, 3, 1 << 30 / 3, k},
 			tuple{2, maxInt/256 + 1, 1, k}, tuple{2, maxInt / 256, 1, k}, tuple{1 << 56, 1, 1, k}, tuple{1 << 57, 1, 1, k}, tuple{1 << 40, 7, 1, k})
 	}
-	c.Rule(fmt.Sprintf("full product N(%d values: minInt,-4..8,12,16,24,32..4096 powers of two,4097,2^31,2^31+1,2^62,maxInt) x r,p(%d values each: minInt,-2..8,2^30,maxInt/128,maxInt) x keyLen(%d values: minInt,-5..0,1,31,32,33,64,65,300) plus %d tuples around r*p=2^30 and the int-overflow guards; quick restricts p to {1,2,3,8} and keyLen to {-1,0,1,32,65,300} where N in 1024..4096 with valid r,p (a whole scrypt is computed there); thorough runs the full product there and adds N in {8192,16384,65535,65536,65537} (valid ones with r in {1,2,8}, p in {1,2}, keyLen in {0,32,65}), r,p in {9,15,16,17}, keyLen in {2,63,96,97,1024,4097}; "+
+	c.Rule(fmt.Sprintf("full product N(%d values: minInt,-4..8,12,16,24,32..4096 powers of two,4097,2^31,2^31+1,2^62,maxInt) x r,p(%d values each: minInt,-2..8,2^30,maxInt/128,maxInt) x keyLen(%d values: minInt,-5..0,1,31,32,33,64,65,300) plus %d tuples around r*p=2^30 and the int-overflow guards; quick restricts p to {1,2,3,8} and keyLen to {-1,0,1,32,65,300} where N in 1024..4096 with valid r,p (a whole scrypt is computed there); thorough widens that to p in {1,2,3,8,17} with every keyLen and adds N in {8192,16384,65535,65536,65537} (valid ones with r in {1,2,8}, p in {1,2}, keyLen in {0,32,65}), r,p in {9,15,16,17}, keyLen in {2,63,96,97,1024,4097}; "+
 		"every tuple is executed on the real scrypt.Key; non-trivial = distinct RFC-valid tuples compared byte for byte with the RFC 7914 model; "+
 		"RFC-invalid tuples must give (nil, error); tuples whose magnitudes could allocate more than 256 MiB run in a child process under RLIMIT_AS",
 		len(Ns), len(rps), len(kls), 14*4))
@@ -174,8 +178,15 @@ func run(c *vf.Ctx) {
 			} else {
 				classes = classes[i%2 : i%2+1]
 			}
-		} else if t.N > 4096 {
-			classes = classes[i%2 : i%2+1]
+		} else {
+			// thorough: every class for N <= 64, fixed + one seeded up to 512, one above
+			switch {
+			case t.N <= 64:
+			case t.N <= 512:
+				classes = classes[:2]
+			default:
+				classes = classes[i%2 : i%2+1]
+			}
 		}
 		for _, v := range classes {
 			pw, salt := pws[v], salts[v]
